@@ -1020,3 +1020,169 @@ Proof.
   - apply in_app_or in Hin. destruct Hin as [Hin|Hin]; [eauto|]. destruct vf as [fv|]; [|contradiction]. eapply IH; eauto.
   - apply in_flat_map in Hin. destruct Hin as [kf [Hk Hin]]. rewrite Forall_forall in *. eapply IH; eauto.
 Qed.
+
+(* ====================================================================================== *)
+(* the theorems of property C13                                                            *)
+(* ====================================================================================== *)
+(* worlds that arise: the schema text is written (defaults allocated), then any history *)
+Definition arises (d : nat) (sigma_text sigma : fld) (w : world) : Prop :=
+  exists h0 evs, materialize d sigma_text [] = Some (h0, sigma) /\
+                 w = wrun true d sigma {| wh := h0; wroots := [] |} evs.
+
+Lemma arises_winv : forall d st sigma w, spec_ok st = true -> arises d st sigma w -> exists c, winv sigma w c.
+Proof.
+  intros d st sigma w Hs (h0 & evs & Hm & ->).
+  destruct (wrun_spec d sigma evs _ c0 (init_winv d st h0 sigma Hs Hm)) as (c & W & _). exists c. exact W.
+Qed.
+
+(* sep_inv: what is reachable from one configuration is reachable neither from another one nor
+   from a default object of the schema *)
+Theorem sep_inv : forall d st sigma w, spec_ok st = true -> arises d st sigma w ->
+  (forall i j ri rj l, i <> j -> nth_error (wroots w) i = Some ri -> nth_error (wroots w) j = Some rj ->
+                       reach (wh w) ri l -> ~ reach (wh w) rj l) /\
+  (forall i ri dl l, nth_error (wroots w) i = Some ri -> In (VRef dl) (default_vals sigma) ->
+                     reach (wh w) ri l -> ~ reach (wh w) dl l).
+Proof.
+  intros d st sigma w Hs Ha. destruct (arises_winv d st sigma w Hs Ha) as (c & HI & Hf & Hr). split.
+  - intros i j ri rj l Hij Hi Hj R1 R2. destruct (Hr i ri Hi) as [A1 A2]. destruct (Hr j rj Hj) as [B1 B2].
+    destruct (reach_col _ c _ _ HI A1 R1) as [_ C1]. destruct (reach_col _ c _ _ HI B1 R2) as [_ C2]. lia.
+  - intros i ri dl l Hi Hd R1 R2. destruct (Hr i ri Hi) as [A1 A2].
+    pose proof (default_vals_ok _ _ _ _ Hf Hd) as [B1 B2].
+    destruct (reach_col _ c _ _ HI A1 R1) as [_ C1]. destruct (reach_col _ c _ _ HI B1 R2) as [_ C2]. lia.
+Qed.
+
+Definition not_on (j : nat) (evs : list event) : Prop := forall o, ~ In (EOp j o) evs.
+
+(* frame: a history that does not operate on configuration j (builds and operations on the
+   others, in any number and order) writes nothing that is reachable from configuration j *)
+Theorem frame_config : forall d st sigma w evs j rj, spec_ok st = true -> arises d st sigma w ->
+  not_on j evs -> nth_error (wroots w) j = Some rj ->
+  let w' := wrun true d sigma w evs in
+  nth_error (wroots w') j = Some rj /\
+  (forall l, reach (wh w) rj l -> lookup (wh w') l = lookup (wh w) l) /\
+  (forall l, reach (wh w) rj l -> reach (wh w') rj l) /\
+  (forall n, snap n (wh w') (VRef rj) = snap n (wh w) (VRef rj)).
+Proof.
+  intros d st sigma w evs j rj Hs Ha Hno Hj w'. destruct (arises_winv d st sigma w Hs Ha) as (c & W).
+  destruct (wrun_spec d sigma evs w c W) as (c' & W' & A & L & [more R] & F). fold w' in W', L, R, F.
+  destruct W as (HI & Hf & Hr). destruct (Hr j rj Hj) as [A1 A2].
+  assert (Hlk : forall l, reach (wh w) rj l -> lookup (wh w') l = lookup (wh w) l).
+  { intros l Rl. destruct (reach_col _ c _ _ HI A1 Rl) as [C1 C2]. apply F; [assumption|].
+    intros i o Hin Hc. assert (i = j) by lia. subst i. exact (Hno o Hin). }
+  split; [|split; [exact Hlk|split]].
+  - rewrite R. rewrite nth_error_app1; [assumption|]. apply nth_error_Some. congruence.
+  - apply reach_same. exact Hlk.
+  - intros n. apply snap_same. intros r Er l Rl. inversion Er; subst r. apply Hlk. assumption.
+Qed.
+
+(* no history at all (operations on any configuration) writes to what is reachable from a default *)
+Theorem frame_defaults : forall d st sigma w evs v, spec_ok st = true -> arises d st sigma w ->
+  In v (default_vals sigma) ->
+  let w' := wrun true d sigma w evs in
+  (forall dl l, v = VRef dl -> reach (wh w) dl l -> lookup (wh w') l = lookup (wh w) l) /\
+  (forall n, snap n (wh w') v = snap n (wh w) v).
+Proof.
+  intros d st sigma w evs v Hs Ha Hv w'. destruct (arises_winv d st sigma w Hs Ha) as (c & W).
+  destruct (wrun_spec d sigma evs w c W) as (c' & W' & A & L & _ & F). fold w' in W', L, F.
+  destruct W as (HI & Hf & Hr). pose proof (default_vals_ok _ _ _ _ Hf Hv) as Hok.
+  assert (Hlk : forall dl l, v = VRef dl -> reach (wh w) dl l -> lookup (wh w') l = lookup (wh w) l).
+  { intros dl l -> Rl. destruct Hok as [B1 B2]. destruct (reach_col _ c _ _ HI B1 Rl) as [C1 C2]. apply F; [assumption|].
+    intros i o _ Hc. lia. }
+  split; [exact Hlk|]. intros n. apply snap_same. intros r Er l Rl. eapply Hlk; eauto.
+Qed.
+
+(* the two together, in the shape of the property text: configuration A (number i) has any
+   history, B (number j) and the schema defaults are observed before and after *)
+Theorem observe_unchanged : forall d st sigma w evs j rj n, spec_ok st = true -> arises d st sigma w ->
+  not_on j evs -> nth_error (wroots w) j = Some rj ->
+  let w' := wrun true d sigma w evs in
+  snap n (wh w') (VRef rj) = snap n (wh w) (VRef rj) /\
+  map (snap n (wh w')) (default_vals sigma) = map (snap n (wh w)) (default_vals sigma).
+Proof.
+  intros d st sigma w evs j rj n Hs Ha Hno Hj w'. split.
+  - apply (frame_config d st sigma w evs j rj Hs Ha Hno Hj).
+  - apply map_ext_in. intros v Hv. apply (frame_defaults d st sigma w evs v Hs Ha Hv).
+Qed.
+
+(* a dynamic field added to one configuration is recorded in that configuration's own table:
+   the Config object of every other configuration (data and dynamic-field list) is untouched *)
+Theorem dynamic_stays : forall d st sigma w evs j rj o, spec_ok st = true -> arises d st sigma w ->
+  not_on j evs -> nth_error (wroots w) j = Some rj -> lookup (wh w) rj = Some o ->
+  lookup (wh (wrun true d sigma w evs)) rj = Some o.
+Proof.
+  intros d st sigma w evs j rj o Hs Ha Hno Hj Ho.
+  destruct (frame_config d st sigma w evs j rj Hs Ha Hno Hj) as (_ & Hlk & _). rewrite Hlk; [assumption|constructor].
+Qed.
+
+(* ---- the hypotheses are satisfiable; the theorems have teeth ---- *)
+Open Scope string_scope.
+Definition ex_text : fld :=
+  FSub true [(sa "l", FList (Some (FDict None DNone)) (DTree (AList [ADict [(PStr (sa "a"), ALeaf (PInt 1))]])));
+             (sa "u", FList None (DTree (AList [AList [ALeaf (PInt 1)]; ATuple [AList [ALeaf (PInt 2)]]])));
+             (sa "d", FDict None (DTree (ADict [(PStr (sa "k"), AList [ALeaf (PInt 1)])])))].
+Definition ex_evs : list event := [EBuild; EBuild].
+Definition ex_op : op := OpDictSet [SAttr (sa "l"); SIdx 0] (PStr (sa "a")) (ALeaf (PInt 2)).
+
+Definition snap_of (deep : bool) (st : fld) (evs : list event) (j : nat) : option pyval :=
+  match materialize 64 st [] with
+  | Some (h0, sigma) =>
+      let w := wrun deep 64 sigma {| wh := h0; wroots := [] |} evs in
+      match nth_error (wroots w) j with
+      | Some r => Some (snap 64 (wh w) (VRef r))
+      | None => None
+      end
+  | None => None
+  end.
+Definition defaults_of (deep : bool) (st : fld) (evs : list event) : option (list pyval) :=
+  match materialize 64 st [] with
+  | Some (h0, sigma) =>
+      let w := wrun deep 64 sigma {| wh := h0; wroots := [] |} evs in
+      Some (map (snap 64 (wh w)) (default_vals sigma))
+  | None => None
+  end.
+
+Example ex_spec_ok : spec_ok ex_text = true.
+Proof. reflexivity. Qed.
+Example ex_arises : exists sigma w, arises 64 ex_text sigma w /\ length (wroots w) = 2.
+Proof.
+  destruct (materialize 64 ex_text []) as [[h0 sigma]|] eqn:Em; [|vm_compute in Em; discriminate].
+  exists sigma, (wrun true 64 sigma {| wh := h0; wroots := [] |} ex_evs). split.
+  - exists h0, ex_evs. split; [exact Em|reflexivity].
+  - vm_compute in Em. inversion Em; subst. vm_compute. reflexivity.
+Qed.
+Example ex_deep_holds : snap_of true ex_text (ex_evs ++ [EOp 0 ex_op]) 1 = snap_of true ex_text ex_evs 1
+                        /\ snap_of true ex_text (ex_evs ++ [EOp 0 ex_op]) 0 <> snap_of true ex_text ex_evs 0.
+Proof. split; [vm_compute; reflexivity|vm_compute; discriminate]. Qed.
+
+(* the same development with the one-level copying of the code before the F30 repair: an
+   in-place change through configuration 0 shows in configuration 1 and in the schema default *)
+Theorem sep_refuted_shallow : exists st evs o,
+  spec_ok st = true /\
+  snap_of false st (evs ++ [EOp 0 o]) 1 <> snap_of false st evs 1 /\
+  defaults_of false st (evs ++ [EOp 0 o]) <> defaults_of false st evs.
+Proof. exists ex_text, ex_evs, ex_op. split; [reflexivity|]. split; vm_compute; discriminate. Qed.
+
+(* open finding F46: Config objects held inside a ListField default are not copied *)
+Definition f46_text : fld :=
+  FSub false [(sa "items", FList (Some (FSub false [(sa "n", FAny (DTree (ALeaf (PInt 0))))]))
+                                 (DCfgs [ADict [(PStr (sa "n"), ALeaf (PInt 5))]]))].
+Definition f46_op : op := OpSet [SAttr (sa "items"); SIdx 0] (sa "n") (ALeaf (PInt 9)).
+
+Theorem sep_refuted_F46 : exists st evs o,
+  known_F46 st = true /\
+  snap_of true st (evs ++ [EOp 0 o]) 1 <> snap_of true st evs 1 /\
+  defaults_of true st (evs ++ [EOp 0 o]) <> defaults_of true st evs.
+Proof. exists f46_text, ex_evs, f46_op. split; [reflexivity|]. split; vm_compute; discriminate. Qed.
+
+Lemma spec_ok_not_F46 : forall f, spec_ok f = true -> known_F46 f = false.
+Proof.
+  assert (Ht : forall df, text_dflt df = true -> dflt_F46 df = false) by (intros [| | | |]; simpl; congruence).
+  induction f as [df|it df IH|vf df IH|dyn fs IH] using fld_ind'; simpl; intros H.
+  - destruct df as [|[]| | |]; simpl in *; congruence.
+  - apply andb_true_iff in H. destruct H as [H1 H2]. rewrite (Ht _ H1). simpl. destruct it; [apply IH; auto|reflexivity].
+  - apply andb_true_iff in H. destruct H as [H1 H2]. rewrite (Ht _ H1). simpl. destruct vf; [apply IH; auto|reflexivity].
+  - rewrite forallb_forall in H. rewrite Forall_forall in IH.
+    destruct (existsb (fun kf => known_F46 (snd kf)) fs) eqn:Ex; [|reflexivity].
+    apply existsb_exists in Ex. destruct Ex as [kf [Hin Hk]]. rewrite (IH kf Hin (H kf Hin)) in Hk. discriminate.
+Qed.
+Close Scope string_scope.
